@@ -14,7 +14,7 @@ impl<'a, 'tcx> Cx<'a, 'tcx> {
     }
     fn res(&self, r: Res) -> String {
         match r {
-            Res::Local(id) => format!("local:{}", self.n.tcx.hir_name(id)),
+            Res::Local(id) => format!("local:{}#{}", self.n.tcx.hir_name(id), id.local_id.as_u32()),
             Res::Def(k, d) => format!(
                 "{}:{}",
                 match k {
@@ -49,9 +49,10 @@ impl<'a, 'tcx> Cx<'a, 'tcx> {
     fn pat(&self, p: &hir::Pat<'tcx>) -> String {
         match p.kind {
             hir::PatKind::Wild => "{\"k\":\"wild\"}".into(),
-            hir::PatKind::Binding(mode, _, id, sub) => format!(
-                "{{\"k\":\"bind\",\"name\":\"{}\",\"byref\":{},\"sub\":{}}}",
+            hir::PatKind::Binding(mode, hid, id, sub) => format!(
+                "{{\"k\":\"bind\",\"name\":\"{}\",\"id\":{},\"byref\":{},\"sub\":{}}}",
                 id,
+                hid.local_id.as_u32(),
                 matches!(mode.0, hir::ByRef::Yes(..)),
                 sub.map(|s| self.pat(s)).unwrap_or("null".into())
             ),
